@@ -104,10 +104,16 @@ def create_retry_strategy(
             return RetryDecision.no_retry()
 
         # Calculate delay with exponential backoff
-        base_delay: float = min(
-            config.initial_delay_seconds * (config.backoff_rate ** (attempts_made - 1)),
-            config.max_delay_seconds,
-        )
+        try:
+            base_delay: float = min(
+                config.initial_delay_seconds
+                * (config.backoff_rate ** (attempts_made - 1)),
+                config.max_delay_seconds,
+            )
+        except OverflowError:
+            # backoff_rate ** (attempts_made - 1) no longer fits a float (e.g. 2.0 ** 1024): the
+            # exponential has long passed max_delay
+            base_delay = config.max_delay_seconds
         # Apply jitter to get final delay
         delay_with_jitter: float = config.jitter_strategy.apply_jitter(base_delay)
         # Round up and ensure minimum of 1 second
